@@ -23,7 +23,6 @@ Oracle (from the statement of C04 and the scope fixed in DESIGN.md section 5/C04
 SystemExit / GeneratorExit raised by a handler are out of scope (DESIGN).  What the report says beyond MARK (full
 message, line numbers) is C20's business.
 """
-import math
 
 from . import app_gen as G
 
